@@ -635,4 +635,41 @@ def r05_10(ctx):
     ctx.floor("R05.10", "`end` methods of the compound serializer that write closing brackets", n, 4)
 
 
-RULES = [("R05.1", r05_1), ("R05.2", r05_2), ("R05.3", r05_3), ("R05.4", r05_4), ("R05.5", r05_5), ("R05.6", r05_6), ("R05.7", r05_7), ("R05.8", r05_8), ("R05.9", r05_9), ("R05.10", r05_10)]
+def r05_11(ctx):
+    """caller-supplied text reaches the output only through the escaper: in the text serializer and its map-key serializer
+    no `&str` / `&[u8]` parameter is handed to a raw write (write_all / write_str / extend_from_slice); the raw-value
+    emitter, whose contract is to copy verbatim, is a different type and is not concerned"""
+    prog = ctx.prog()
+    n = 0
+    seen = collections.Counter()
+    for f in prog.fns.values():
+        if f.crate != "sonic_rs" or f.kind == "Closure":
+            continue
+        adt = f.self_adt or ""
+        if not adt.endswith(("serde::ser::Serializer", "serde::ser::MapKeySerializer")):
+            continue
+        sparams = [i for i in range(1, f.argc + 1) if f.locals[i]["ty"].replace("'static ", "") in ("&str", "&[u8]")]
+        if not sparams:
+            continue
+        n += 1
+        bad = []
+        for g in prog.with_closures(f):
+            for b, t in g.calls():
+                nm = t["callee"].rsplit("::", 1)[-1]
+                if nm not in ("write_all", "write_str", "extend_from_slice", "write", "push_str", "write_raw") or len(t["args"]) < 2:
+                    continue
+                if g.id != f.id:
+                    continue
+                l = op_local(t["args"][1])
+                sl, leaves = backward_slice(f, [l]) if l is not None else (set(), [])
+                if any(lf[0] == "param" and lf[1] in sparams for lf in leaves):
+                    bad.append(t)
+        key = f"{adt.rsplit('::', 1)[-1]}::{f.name}"
+        seen[key] += 1
+        ctx.ob("R05.11", f"{key}#{seen[key]}", not bad, f.loc(bad[0]["ln"] if bad else None),
+               "the text parameter is only handed to the escaping writer" if not bad else
+               f"the text parameter is written with {bad[0]['callee'].rsplit('::', 1)[-1]} without passing the escaper: a quote, backslash or control character in it goes out raw")
+    ctx.floor("R05.11", "serializer methods taking caller text", n, 8)
+
+
+RULES = [("R05.1", r05_1), ("R05.2", r05_2), ("R05.3", r05_3), ("R05.4", r05_4), ("R05.5", r05_5), ("R05.6", r05_6), ("R05.7", r05_7), ("R05.8", r05_8), ("R05.9", r05_9), ("R05.10", r05_10), ("R05.11", r05_11)]
